@@ -445,6 +445,11 @@ class Stop(Exception):
     pass
 
 
+# tags of reported defects that /repo still has (the others were repaired:
+# F35-F39; a schedule that runs into one of those is judged like any other)
+OPEN_DEFECTS = {'early_wrap_bookkeeping'}
+
+
 def early_wraps(start, line, width):
     """indices of the wide characters of line that do not fit into the last
     column and go to the next row as a whole (input starts at column start)"""
@@ -509,7 +514,7 @@ def script_tags(log, consts, final=None, term='ansi', unsplit=False):
         if on_early_wrap(st):
             tags.setdefault('early_wrap_bookkeeping', i)
         prev = st
-    return tags
+    return {t: i for t, i in tags.items() if t in OPEN_DEFECTS}
 
 
 class Replay:
@@ -531,6 +536,11 @@ class Replay:
         self.nbyte = 0
         self.chunks = 0
         self.nochecks = False       # unsplit re-run: only the summary counts
+        self.maxlen = int(consts.get('MaxLen', 0))
+        self.allow = 0              # output bytes the chunk's keys may cost
+        self.raw0 = 0
+        self.work_max = 0.0         # largest output / allowance seen
+        self.flagged = set()
 
     # ---- verdict helpers ----
     def viol(self, clause, what, i):
@@ -756,9 +766,57 @@ class Replay:
         if exc:
             self.viol('NoCrash', f'exception in the event loop: {exc[:2]}', i)
 
+    # ---- bounded work (C10): every key redraws at most the line ----
+    WORK_A, WORK_B = 32, 3
+
+    def unit(self, *lines):
+        """output bytes one key / API call may cost: a + b * terminal width
+        + 2 * size of the longest line involved, a line measured as its
+        UTF-8 bytes + its columns (drawn once, blanked once)"""
+        def size(line):
+            return sum(len(glyph(c).encode()) + (2 if c[0] == 'w' else 1)
+                       for c in line)
+        return self.WORK_A + self.WORK_B * self.w.terms[0].w + \
+            2 * max(size(l) for l in lines)
+
+    def soft(self, clause, what, i):
+        """recorded once per replay, the walk goes on (the other monitors
+        will usually fire as well)"""
+        if clause not in self.flagged:
+            self.flagged.add(clause)
+            self.violations.append((clause, what, i))
+
+    def check_work(self, i, st):
+        out = len(self.w.raw) - self.raw0
+        self.raw0 = len(self.w.raw)
+        allow, self.allow = self.allow, 0
+        if allow:
+            self.work_max = max(self.work_max, out / allow)
+        if out > allow:
+            self.soft('WorkBounded', f'{out} bytes were written to the '
+                      f'terminal for input that may cost {allow} '
+                      f'({self.WORK_A} + {self.WORK_B} * width + 2 * (bytes + '
+                      f'columns of the line) per key / call; the model\'s '
+                      f'line has '
+                      f'{len(st["line"])} characters)', i)
+        ed = self.w.editor()
+        if ed is not None and self.maxlen:
+            for what, val in (('input line', ed._line),
+                              ('kill buffer', ed._erased)):
+                if len(val) > st['cap']:
+                    self.soft('LineBounded', f'the {what} has {len(val)} '
+                              f'characters; max_line_length is {self.maxlen}'
+                              f', the longest line the application set '
+                              f'{st["cap"]}', i)
+
     def checkpoint(self, i, st, bells=None):
         self.check_crash(i)
         if self.nochecks:
+            return
+        self.check_work(i, st)
+        if self.flagged:
+            # the editor has left the model (line over the limit): only the
+            # work monitors go on, to see what the input costs from here
             return
         self.check_secret(i)
         if bells is not None:
@@ -776,7 +834,10 @@ class Replay:
         self.check_state(i, st)
 
     # ---- the walk ----
-    def run(self, unsplit=False):
+    def run(self, unsplit=False, percut=False):
+        """percut: every byte is a chunk of its own (the monitors see the
+        editor after every key)"""
+        self.percut = percut
         w = self.w
         width = self.widths[0]
         try:
@@ -847,9 +908,13 @@ class Replay:
             lbl, st, ctx = log[i]
             kind = lbl[0]
             if kind in ('T', 'B'):
+                if self.percut:
+                    send_chunk(i - 1, prev)
                 if not chunk:
                     self.chunk_lmode = prev['lmode']
                 tok = lbl[-1]
+                self.allow += self.unit(prev['line'], st['line'],
+                                        prev['kill'])
                 chunk += byte_of(tok, prev['nid'])
                 self.nbyte += 1
                 if tok in ('n', 'm2', 'w3') and prev['lmode'] and \
@@ -873,6 +938,10 @@ class Replay:
                 name = lbl[1]
                 if name == 'echo_on':
                     self.secret -= {glyph(c) for c in prev['line']}
+                # (what a call between two chunks queues is sent with the
+                # next chunk)
+                self.allow += self.unit(prev['line'], st['line'],
+                                        prev['pshow']) + 8
                 if ctx == 'cb' and chunk:
                     plan.setdefault(ncb, []).append((name, i))
                     self.feed_tty(i, st['ntty'], name)
